@@ -9,7 +9,8 @@ short-circuit `and`/`or`, chained comparisons, lazy NameError/ZeroDivisionError)
 
 Not modelled (result `unsup`, skipped by the correspondence): float-valued
 sub-expressions (`1e5`, negative powers), the empty tuple `()`, call syntax `1(2)`, character
-references rewritten by `html.unescape`, exponents/shift counts above 256.
+references rewritten by `html.unescape`, exponents/shift counts above 256,
+results beyond 10^600.
 -/
 namespace MacroExpr
 open MacroText
@@ -419,7 +420,10 @@ def evaluate (param : Text) : EvalRes :=
       else if hasCall ts || hasEmptyTuple ts then .error .unsup
       else if ts.contains .bad then .error .err
       else match parseTokens ts with
-        | some e => eval none e
+        | some e =>
+          (match eval none e with
+           | .ok v => if v.natAbs > 10 ^ 600 then .error .unsup else .ok v    -- model limit (CPython: int/str conversion limit)
+           | .error x => .error x)
         | none => .error .err
 
 end MacroExpr
